@@ -47,36 +47,45 @@ fn with_opening(rows: &[NRow], opening: &Option<(Rat, Rat)>) -> Result<(), Strin
     }
 }
 
-/// Root-cause classifier R5: balances are kept as rounded 28-digit decimals, so after a split whose
-/// factor (or result) does not terminate, a holding that is exactly N in rational arithmetic is
-/// N - 1e-28 in the tool; selling exactly N (or a whole-number reverse split of it) is then refused.
-pub fn is_chain_residue(rows: &[HRow], model: &MResult, msg: &str) -> bool {
-    let nonterminating_split = model.rows.iter().any(|m| m.act == Act::Split && m.share_bal.to_decimal_string(28).is_none())
-        || rows.iter().filter(|r| r.act == Act::Split).any(|r| { let m = r.to_mrow(); m.split.0.div(&m.split.1).to_decimal_string(28).is_none() });
-    if !nonterminating_split { return false; }
+/// Root-cause classifiers for a rejection of a history the exact model accepts.
+/// R5: balances are kept as rounded 28-digit decimals, so after a split whose factor (or its
+/// reciprocal) does not terminate, a holding that is exactly N in rational arithmetic is N -/+ 1e-28 in
+/// the tool; selling exactly N, a whole-number reverse split of it, or a return of capital that uses up
+/// exactly the cost base is then refused.  R1b: the same residue created by the 30-day look-ahead's
+/// own restatement of later share counts across a split.
+pub fn residue_class(rows: &[HRow], model: &MResult, msg: &str) -> Option<&'static str> {
+    let risky = rows.iter().any(super::common::risky_split);
     let eps = Rat::ratio(1, 1_000_000_000);
-    let num_in_parens = |after: &str| -> Option<Rat> { let i = msg.find(after)? + after.len(); let rest = &msg[i..]; let end = rest.find(|c: char| !(c.is_ascii_digit() || c == '.'))?; Rat::parse(rest[..end].trim_end_matches('.')) };
+    let num_after = |after: &str| -> Option<Rat> { let i = msg.find(after)? + after.len(); let rest = &msg[i..]; let end = rest.find(|c: char| !(c.is_ascii_digit() || c == '.')).unwrap_or(rest.len()); Rat::parse(rest[..end].trim_end_matches('.')) };
+    let empties_a_holding = model.rows.iter().any(|m| m.act == Act::Sell && (m.share_bal.lt(&eps) || m.all_bal.lt(&eps)));
+    if msg.contains("Invalid RoC tx") && msg.contains("exceeds the current ACB") {
+        // the cost base itself is a rounded decimal (ACB after a sale = shares left x rounded per-share ACB)
+        let x = num_after("RoC (")?;
+        let y = num_after("current ACB (")?;
+        return if x.gt(&y) && x.sub(&y).lt(&eps) { Some("R5") } else { None };
+    }
+    if !risky { return None; }
     if msg.contains("is more than the current") {
         // "Sell order on D of S shares of X is more than the current holdings (H)"
-        let Some(h) = num_in_parens("holdings (").or_else(|| num_in_parens("affiliates (")) else { return false; };
-        let Some(sold) = num_in_parens(" of ") else { return false; };
-        // the tool's holding is below the sold amount only by rounding noise, and the exact ledger has a sale of that size that empties (or nearly empties) a holding
-        return sold.sub(&h).is_pos() && sold.sub(&h).lt(&eps) && model.rows.iter().any(|m| m.act == Act::Sell && (m.share_bal.lt(&eps) || m.all_bal.lt(&eps)));
+        let h = num_after("holdings (").or_else(|| num_after("affiliates ("))?;
+        let sold = num_after(" of ")?;
+        return if sold.sub(&h).is_pos() && sold.sub(&h).lt(&eps) { Some("R5") } else { None };
     }
     if msg.contains("results in non-integer share balance of ") {
-        let Some(v) = num_in_parens("non-integer share balance of ") else { return false; };
+        let v = num_after("non-integer share balance of ")?;
         let nearest = v.add(&Rat::ratio(1, 2)).floor_dp(0);
-        return v.sub(&nearest).abs().lt(&eps);
+        return if v.sub(&nearest).abs().lt(&eps) { Some("R5") } else { None };
     }
     if msg.contains("went below zero in 30-day period after sale") || msg.contains("is less than sold shares") {
-        return model.rows.iter().any(|m| m.act == Act::Sell && (m.share_bal.lt(&eps) || m.all_bal.lt(&eps)));
+        return if empties_a_holding { Some("R1b") } else { None };
     }
-    false
+    None
 }
+pub fn is_chain_residue(rows: &[HRow], model: &MResult, msg: &str) -> bool { residue_class(rows, model, msg).is_some() }
 
 pub fn spurious_rejection_verdict(sec: &str, msg: &str, csv: &str, rows: &[HRow], model: &MResult) -> Verdict {
     if msg.contains("Found non-global split") && msg.contains("near global split") { return known_or_fail("F-04d", format!("history of {sec} contains none of the listed causes but is refused: {msg}\n{csv}")); }
-    if is_chain_residue(rows, model, msg) { return known_or_fail("R5", format!("valid history of {sec} rejected because a balance that is exact in rational arithmetic carries 1e-28 of rounding residue after a non-terminating split factor: {msg}\n{csv}")); }
+    if let Some(id) = residue_class(rows, model, msg) { return known_or_fail(id, format!("valid history of {sec} rejected because a quantity that is exact in rational arithmetic carries ~1e-28 of rounding residue after a split with a non-terminating factor: {msg}\n{csv}")); }
     Verdict::Fail(format!("history of {sec} contains none of the listed causes but was rejected: {msg}\n{csv}"))
 }
 
@@ -264,6 +273,13 @@ fn check_reject(c: &RejectCase, obs: &mut Obs) -> Verdict {
     };
     let Some(tool) = res.get(sec) else { return Verdict::Fail(format!("security {sec} missing\n{csv}")); };
     let Some(msg) = &tool.err else { return Verdict::Fail(format!("history of {sec} contains a listed cause ({:?}, planted: {}) but was accepted\n{csv}", me.cause, c.cause)); };
+    // the tool may stop earlier than the planted row for a recorded rounding-residue reason
+    let base_rows: Vec<HRow> = case.rows.iter().enumerate().filter(|(i, r)| *i != c.planted_ix && &r.sec == sec).map(|(_, r)| r.clone()).collect();
+    let base_model = model_for(&base_rows, case.opening_for(sec));
+    if let Some(id) = residue_class(&sec_rows, &MResult { rows: base_model.rows.clone(), err: None }, msg) {
+        let planted_msg = match me.cause { Cause::OverSale | Cause::OverSaleSeenFromWindow { .. } => msg.contains(&offending.td.to_string()) && (msg.contains(&format!(" of {} shares", offending.shares)) || msg.contains("30-day period")), Cause::RocExceedsAcb => msg.contains("Invalid RoC") && msg.contains(&offending.td.to_string()), Cause::FractionalReverseSplit => msg.contains("non-integer") && msg.contains(&offending.td.to_string()), _ => false };
+        if !planted_msg { return known_or_fail(id, format!("{sec} is rejected before the planted row for a rounding-residue reason: {msg}\n{csv}")); }
+    }
     // (3a) message identifies the transaction: carries the offending row's trade date
     let date = offending.td.to_string();
     if !msg.contains(&date) { return Verdict::Fail(format!("rejection message does not identify the offending transaction (trade date {date}): {msg}\n{csv}")); }
@@ -276,8 +292,11 @@ fn check_reject(c: &RejectCase, obs: &mut Obs) -> Verdict {
     }
     if let Err(e) = with_opening(&n, &case.opening_for(sec)) { return Verdict::Fail(format!("{sec}: {e}\n{csv}")); }
     match compare(&mrows, &n, true, &CmpWhat::all()) {
-        Ok(st) => { let want = mrows.iter().filter(|m| m.src.is_some()).count(); if st.user_rows != want { return Verdict::Fail(format!("{sec}: rows shown ({} input rows) are not the ledger prefix before the offending transaction ({} input rows)\nmessage: {msg}\n{csv}", st.user_rows, want)); } }
-        Err(e) => return Verdict::Fail(format!("{sec}: rows shown for the rejected history are not a correct prefix: {e}\nmessage: {msg}\n{csv}")),
+        Ok(st) => { let want = mrows.iter().filter(|m| m.src.is_some()).count(); if st.user_rows < want { if let Some(id) = residue_class(&sec_rows, &MResult { rows: base_model.rows.clone(), err: None }, msg) { return known_or_fail(id, format!("{sec} is rejected before the planted row for a rounding-residue reason: {msg}\n{csv}")); } } if st.user_rows != want { return Verdict::Fail(format!("{sec}: rows shown ({} input rows) are not the ledger prefix before the offending transaction ({} input rows)\nmessage: {msg}\n{csv}", st.user_rows, want)); } }
+        Err(e) => {
+            if let Err((_, at)) = crate::cmp::compare_at(&mrows, &n, true, &CmpWhat::all()) { if let Some(id) = zero_residue_class(&sec_rows, &MResult { rows: mrows.clone(), err: None }, at) { return known_or_fail(id, format!("{sec}: prefix shown differs for a recorded rounding-residue reason: {e}\n{csv}")); } }
+            return Verdict::Fail(format!("{sec}: rows shown for the rejected history are not a correct prefix: {e}\nmessage: {msg}\n{csv}"));
+        }
     }
     // other securities must be unaffected in their accept/reject outcome
     // (4) every output mode + (3c) totals exclude the security
